@@ -302,6 +302,11 @@ impl FormatStringParser<'_> {
                 follow_links: false,
             },
             'Y' => FormatDirective::Type { follow_links: true },
+            '{' | '[' | '(' => {
+                return Err(From::from(format!(
+                    "the format directive `%{first}' is reserved for future use"
+                )))
+            }
             // TODO: %Z
             _ => return Ok(FormatComponent::Literal(first.to_string())),
         };
@@ -475,8 +480,8 @@ fn format_directive<'entry>(
         #[cfg(unix)]
         FormatDirective::Filesystem => {
             let dev_id = meta()?.dev().to_string();
-            let fs_list =
-                uucore::fsext::read_fs_list().expect("Could not find the filesystem info");
+            let fs_list = uucore::fsext::read_fs_list()
+                .map_err(|e| format!("Could not find the filesystem info: {e}"))?;
             fs_list
                 .into_iter()
                 .find(|fs| fs.dev_id == dev_id)
